@@ -118,7 +118,9 @@ Record shared := {
 Definition shared0 : shared :=
   {| smap := []; hs := []; cnt := 0; drops := 0; unknown := 0; stales := 0; noop := 0 |}.
 
-Inductive variant := Defective | Repaired.
+(* LoadAndDel: the Repaired algorithm except that UnregisterSeries removes with series.LoadAndDelete(h) instead of
+   CompareAndDelete(h, entry) (seeded change C20_n2) — only used for a _refuted witness *)
+Inductive variant := Defective | Repaired | LoadAndDel.
 Record cfg := { c_kind : kind; c_cap : Z;       (* MaxSeriesPerMetric after defaulting; <= 0 means unbounded *)
                 c_nlabels : nat; c_buckets : list Z; c_variant : variant }.
 
@@ -275,7 +277,7 @@ Definition tstep (c : cfg) (s : shared) (th : thread) : shared * thread :=
       end
   | PR1 t =>
       if capped c && (c_cap c <=? cnt s) then (s, finish th (ResH RTomb))
-      else (s, goto th (match c_variant c with Defective => PR2 t | Repaired => PQ2 t end))
+      else (s, goto th (match c_variant c with Defective => PR2 t | _ => PQ2 t end))
   (* ---- defective WithLabelValues ---- *)
   | PR2 t =>
       match map_load (smap s) (hash_tuple t) with
@@ -319,6 +321,12 @@ Definition tstep (c : cfg) (s : shared) (th : thread) : shared * thread :=
                         then (set_hs (set_map s (map_delete (smap s) (hash_tuple t))) (upd_nth (hs s) id retire),
                               goto th (PU2 id))
                         else (s, finish th (ResB false))
+          | None => (s, finish th (ResB false))
+          end
+      | LoadAndDel =>         (* LoadAndDelete(h): removes whatever is stored under the hash now *)
+          match map_load (smap s) (hash_tuple t) with
+          | Some _ => (set_hs (set_map s (map_delete (smap s) (hash_tuple t))) (upd_nth (hs s) id retire),
+                       goto th (PU2 id))
           | None => (s, finish th (ResB false))
           end
       end
@@ -466,7 +474,7 @@ Definition rstep (v : variant) (s : rshared) (th : rthread) : rshared * rthread 
           | Some b => if negb (kind_eqb (rb_kind b) (ro_kind o))
                       then match v with
                            | Defective => (s, rdone th RRPanic)          (* actual.(ptr Counter) on a Gauge *)
-                           | Repaired => (rbump s, rdone th RRErrType)
+                           | _ => (rbump s, rdone th RRErrType)
                            end
                       else if negb (Nat.eqb (rb_nl b) (ro_nl o)) then (rbump s, rdone th RRErrSchema)
                       else (s, rdone th (RROk id))
